@@ -240,8 +240,8 @@ fn run_form(ctx: &mut Ctx, rng: &mut Rng, _index: u64) {
                 1 | 2 => rng.range(1, 100),
                 3 | 4 => rng.range(100, 9000),
                 5 => rng.range(8000, 8400),
-                _ if big => rng.range(9000, 200_000),
-                _ => rng.range(0, 20_000),
+                _ if big && !crate::framework::small_mode() => rng.range(9000, 200_000),
+                _ => rng.range(0, if crate::framework::small_mode() { 2_000 } else { 20_000 }),
             };
             FileField { name: printable(rng, 6), data: tricky_data(rng, ctx, len), filename: if rng.bool() { Some(printable(rng, 8)) } else { None }, mime: if rng.bool() { Some(*rng.pick(MIMES)) } else { None } }
         })
